@@ -132,12 +132,19 @@ def make_factory(spec: dict):
 
 # ------------------------------------------------------------------------------------------------ method generation
 def gen_method(rnd: random.Random, spec: dict, tagdefs: list[tuple[str, str | None]]) -> str:
+    """Template grammar. Every statement draws its argument from a 'plausible' pool (what a user would expect to be
+    valid) or, with the method's sloppiness p_bad, from a 'doubtful' pool just outside it. Which of them the analysis
+    accepts is decided by the analysis, not here."""
     from openpectus.lang.exec.units import QUANTITY_UNIT_MAP
     units_all = [u for v in QUANTITY_UNIT_MAP.values() for u in v]
     lines: list[str] = []
     n = [0]
     macros: list[str] = []
     cmds = spec["cmds"]
+    p_bad = rnd.choice([0.0, 0.0, 0.04, 0.1, 0.3])
+
+    def pick(good, doubtful):
+        return rnd.choice(doubtful) if rnd.random() < p_bad else rnd.choice(good)
 
     def quantity_mates(u):
         for v in QUANTITY_UNIT_MAP.values():
@@ -148,19 +155,15 @@ def gen_method(rnd: random.Random, spec: dict, tagdefs: list[tuple[str, str | No
     def cond(assign=False):
         name, unit = rnd.choice(tagdefs)
         op = "=" if assign else rnd.choice(["<", "<=", ">", ">=", "=", "!="])
-        value = rnd.choice(["0", "1", "5", "0.5", "10", "100", "7", "41", "1.5"]) if rnd.random() < 0.9 else \
-            rnd.choice(["Open", "Running", "abc"])
-        r = rnd.random()
-        if unit is None:
-            u = None if r < 0.85 else rnd.choice(units_all)
-        elif r < 0.55:
-            u = unit
-        elif r < 0.85:
-            u = rnd.choice(quantity_mates(unit))
-        elif r < 0.93:
+        value = rnd.choice(["0", "1", "5", "0.5", "10", "100", "7", "41", "1.5"])
+        if unit is None and rnd.random() < 0.15:
+            value = rnd.choice(["Open", "Running", "abc"])
+        if rnd.random() < p_bad:
+            u = rnd.choice([None, rnd.choice(units_all), unit])
+        elif unit is None:
             u = None
         else:
-            u = rnd.choice(units_all)
+            u = unit if rnd.random() < 0.6 else rnd.choice(quantity_mates(unit))
         return f"{name} {op} {value}" + (f" {u}" if u else "")
 
     def stmt(ind, depth):
@@ -171,15 +174,17 @@ def gen_method(rnd: random.Random, spec: dict, tagdefs: list[tuple[str, str | No
             lines.append(f"{pad}Mark: m{n[0]}")
         elif r < 0.30 and cmds:
             c = rnd.choice(cmds)
-            a = rnd.choice(CMD_ARGS[c])
+            pool = CMD_ARGS[c]
+            a = pick(pool[:max(1, len(pool) // 2)], pool)
             lines.append(f"{pad}{c}" + (f": {a}" if a != "" else ""))
         elif r < 0.40:
-            lines.append(f"{pad}Base: {rnd.choice(BASE_UNITS_TRIED)}".rstrip().rstrip(":") if rnd.random() < 0.05 else
-                         f"{pad}Base: {rnd.choice(BASE_UNITS_TRIED[:-1])}")
+            u = pick(BASE_UNITS_TRIED[:9], BASE_UNITS_TRIED)
+            lines.append(f"{pad}Base: {u}" if u else f"{pad}Base")
         elif r < 0.47:
             lines.append(f"{pad}{rnd.choice(['0.1', '0.2', '0', '0.05', '1'])} Mark: t{n[0]}")
         elif r < 0.53:
-            lines.append(f"{pad}Wait: {rnd.choice(['0.2s', '0.1 s', '0.01 min', '0.001 h', '2', '0.5', 's', '-1s', '0.3 sec', '0.2s', '.2s', '1e-1s'])}")
+            lines.append(f"{pad}Wait: " + pick(['0.2s', '0.1 s', '0.01 min', '0.001 h', '.2s', '0.3s'],
+                                               ['2', '0.5', 's', '-1s', '0.3 sec', '1e-1s', '0.2 ms']))
         elif r < 0.66 and depth < 2:
             lines.append(f"{pad}{rnd.choice(['Watch', 'Alarm'])}: {cond()}")
             for _ in range(rnd.randint(1, 2)):
@@ -203,15 +208,17 @@ def gen_method(rnd: random.Random, spec: dict, tagdefs: list[tuple[str, str | No
             else:
                 lines.append(f"{pad}Simulate off: {rnd.choice(tagdefs)[0]}")
         elif r < 0.90:
-            lines.append(pad + rnd.choice(["Increment run counter", "Run counter: 3", "Run counter: 0", "Run counter: 3.5",
-                                           "Run counter: -1", "Run counter: x", "Run counter: 1e1", "Run counter"]))
+            lines.append(pad + pick(["Increment run counter", "Run counter: 3", "Run counter: 0", "Run counter: 12"],
+                                    ["Run counter: 3.5", "Run counter: -1", "Run counter: x", "Run counter: 1e1", "Run counter",
+                                     "Increment run counter: 1"]))
         elif r < 0.94:
-            lines.append(pad + rnd.choice(["Info: hello", "Warning: careful", "Info", "Notify: done", "Batch: B1", "Info: a: b"]))
+            lines.append(pad + rnd.choice(["Info: hello", "Warning: careful", "Notify: done", "Batch: B1", "Info: a: b",
+                                           "Error: told you"]))
         elif r < 0.98:
-            lines.append(pad + rnd.choice(["Pause: 0.2s", "Hold: 0.2 s", "Hold: 0.01 min", "Pause: 1", "Hold: 5 x", "Pause: -1s",
-                                           "Hold: .2s", "Pause: 0.2", "Hold: 0.2s"]))
+            lines.append(pad + pick(["Pause: 0.2s", "Hold: 0.2 s", "Hold: 0.01 min", "Hold: .2s", "Pause: 0.1s"],
+                                    ["Pause: 1", "Hold: 5 x", "Pause: -1s", "Pause: 0.2", "Hold: 1e-1s", "Unpause", "Unhold"]))
         else:
-            lines.append(pad + rnd.choice(["End blocks", "Unpause", "Unhold"]))
+            lines.append(pad + rnd.choice(["End blocks", "Mark: x"]))
 
     for _ in range(rnd.randint(2, 7)):
         stmt(0, 0)
@@ -250,14 +257,27 @@ def describe(ex) -> dict:
     return {"text": " <- ".join(texts)[:600], "sites": sites, "node": node}
 
 
-def failure_class(d: dict) -> str:
+def failure_class(d: dict, rig=None) -> str:
+    """The interpreter re-raises from its generator stack, so the raise site is identified by the node attached to the
+    NodeInterpretationError and by the wrapper text ('Error evaluating condition: ...' is only produced around
+    PInterpreter._evaluate_condition of a Watch/Alarm node)."""
+    import openpectus.lang.model.ast as p
     t = d["text"]
-    in_condition = "_evaluate_condition" in d["sites"] or "compare_values" in d["sites"] and "_is_awaiting_threshold" not in d["sites"]
+    node = d["node"]
     if RX_NAME.search(t):
         return "undefined_name"
     if RX_ARG.search(t):
         return "invalid_argument"
-    if RX_UNIT.search(t) and (in_condition or "simulate_value_and_unit" in d["sites"] or "visit_SimulateNode" in d["sites"]):
+    if isinstance(node, p.NodeWithCondition) and "Error evaluating condition" in t and RX_UNIT.search(t):
+        if not re.search(r"incompatible units|non-pint units|Invalid unit|Cannot convert|not defined in the unit registry", t):
+            # bare 'Conversion error' (TypeError while comparing): a unit problem only if two different units were involved
+            c = node.tag_operator_value
+            try:
+                tag_unit = rig.e.tags[c.tag_name].unit
+            except Exception:
+                return "other"
+            if c.tag_unit is None or tag_unit is None or c.tag_unit == tag_unit:
+                return "other"
         return "incompatible_units"
     return "other"
 
@@ -265,12 +285,13 @@ def failure_class(d: dict) -> str:
 def classify(cls: str, d: dict, rig) -> str | None:
     """C20.base_units_static_list: `Base: u` with u in the analyzer's static list (regex.REGEX_BASE_ARG built from
     units.BASE_VALID_UNITS) but not registered with the UOD's base_unit_provider -> NodeInterpretationError
-    "Base instruction has invalid argument 'u'" from visit_InterpreterCommandNode."""
+    "Base instruction has invalid argument 'u'" attached to the Base node."""
     from openpectus.lang.exec.units import BASE_VALID_UNITS
-    if cls == "invalid_argument":
+    node = d["node"]
+    if cls == "invalid_argument" and node is not None and node.instruction_name == "Base":
         m = re.search(r"Base instruction has invalid argument '([^']*)'", d["text"])
-        if m and m.group(1) in BASE_VALID_UNITS and m.group(1) not in rig.e.uod.base_unit_provider.get_units() \
-                and "visit_InterpreterCommandNode" in d["sites"]:
+        if m and m.group(1) == node.arguments and m.group(1) in BASE_VALID_UNITS \
+                and m.group(1) not in rig.e.uod.base_unit_provider.get_units():
             return "C20.base_units_static_list"
     return None
 
@@ -311,6 +332,9 @@ def check_case(case: dict, res: Result):
     rig = R.EngineRig(None, uod_factory=make_factory(spec), hooks=False)
     try:
         res.count("cases")
+        # same start-up sequence as openpectus.engine.main: Engine(uod) -> validate_configuration -> build_commands
+        rig.uod.validate_configuration()
+        rig.uod.build_commands()
         uod_def = rig.uod.create_lsp_definition()
         uod_def.system_commands = rig.e.get_command_definitions()
         inp = L.AnalysisInput(L.build_commands(uod_def), L.build_tags(uod_def), "opv")
@@ -364,10 +388,10 @@ def check_case(case: dict, res: Result):
         viol = []
         for ex in captured:
             d = describe(ex)
-            cls = failure_class(d)
+            cls = failure_class(d, rig)
             res.count("failure_" + cls)
             if cls == "other":
-                res.count("other failure: " + d["text"].split(" <- ")[-1][:70])
+                res.count("other failure: " + re.sub(r"'[^']*'|[0-9]+", "_", d["text"].split(" <- ")[0].split("':")[-1])[:80].strip())
                 continue
             where = f" at line {d['node'].position.line} '{d['node'].instruction_name}: {d['node'].arguments}'" \
                 if d["node"] is not None else ""
